@@ -57,7 +57,8 @@ EXTRA_REJECT = {
     "softmax": [{"_stacklevel": 5}],
     "scaled_dot_product_attention": [{"scale": 0.3}, {"enable_gqa": True}],
     "matmul": [{"out": "OUT"}],
-    "mse_loss": [{"weight": "ONES"}],
+    "mse_loss": [{"weight": "ONES"}, {"reduction": "none"}, {"reduction": "batchmean"}],
+    "cross_entropy": [{"reduction": "none"}, {"reduction": "batchmean"}],
     "gelu": [{"inplace": True}],
     "linear": [{"out": "OUT"}],
 }
@@ -128,7 +129,10 @@ def run_case(case: Dict[str, Any]) -> Dict[str, Any]:
                 v = torch.empty_like(op.ref(t, cfg))
             elif v == "ONES":
                 v = torch.ones_like(t["input"])
-            kw[k] = v
+            if k in op.coords:  # a value of a modelled hyperparameter that the library does not implement
+                cfg = dict(cfg, **{k: v})
+            else:
+                kw[k] = v
         try:
             y = op.unit(t, cfg, **kw)
             viol.append({"key": f"{op.name}|unsupported_arg_accepted|{','.join(case['kw'])}",
